@@ -13,8 +13,31 @@ from .common import all_guards, call_name, direct_guards, norm, where
 RESOLVER = "flowmark.file_resolver.resolver:FileResolver"
 
 
+_ROLE = {"_walk_directory": "walk", "_expand_glob": "glob", "_should_include_explicit": "explicit", "_exceeds_max_size": "size",
+         "_is_dir_excluded": "dirprune", "resolve": "resolve"}
+
+
 def _method(ctx: Ctx, name: str) -> FuncInfo:
-    return ctx.repo.func(f"{RESOLVER}.{name}")
+    """A method of the resolver by its role (sa.anchors); `name` is the conventional spelling of that role."""
+    from .. import anchors
+
+    return anchors.resolver_method(ctx, _ROLE[name])
+
+
+def _attr_kind(ctx: Ctx, key: str) -> str | None:
+    """What the resolver attribute behind a chain key (`self._exclude_spec`) holds."""
+    from .. import anchors
+
+    return anchors.resolver_attr_kinds(ctx).get(key.rpartition(".")[2])
+
+
+def _loader_kinds(ctx: Ctx, names) -> set[str]:
+    from .. import anchors
+
+    out: set[str] = set()
+    for n in names:
+        out |= anchors.loader_kinds(ctx, n)
+    return out
 
 
 def _yields(flow) -> list[Node]:
@@ -56,10 +79,8 @@ def filter_kinds(ctx: Ctx, fi: FuncInfo, expr: ast.AST, node: Node, depth: int =
                 if isinstance(recv, ast.Name) and recv.id in comp_bind:
                     recv = comp_bind[recv.id]  # `any(spec.match_file(x) for spec in specs)`: classify by the iterable
                 k = chain_key(recv) or ""
-                if k.endswith("._include_spec"):
-                    kinds.add("include")
-                elif k.endswith("._exclude_spec"):
-                    kinds.add("exclude")
+                if k and _attr_kind(ctx, k) in ("include", "exclude"):
+                    kinds.add(_attr_kind(ctx, k))
                 else:
                     sl = prog.slice(fi, recv, node)
                     names = sl.callees()
@@ -68,19 +89,18 @@ def filter_kinds(ctx: Ctx, fi: FuncInfo, expr: ast.AST, node: Node, depth: int =
                     if via_callers:
                         kinds |= via_callers
                         found = True
-                    if any("_get_gitignore" in n or "load_gitignore" in n for n in names) or any(
-                        p == "gitignore_specs" for p in sl.params()
-                    ) or any(a.endswith("._gitignore_cache") for a in sl.attrs()):
+                    lk = _loader_kinds(ctx, names)
+                    ak = {_attr_kind(ctx, a) for a in sl.attrs()}
+                    if "gitignore" in lk or "gitignore" in ak or any(p == "gitignore_specs" for p in sl.params()):
                         kinds.add("gitignore")
                         found = True
-                    if any("_get_tool_ignore" in n or "load_tool_ignore" in n for n in names) or "tool_ignore" in sl.params() \
-                            or any(a.endswith("._tool_ignore_cache") for a in sl.attrs()):
+                    if "toolignore" in lk or "toolignore" in ak or "tool_ignore" in sl.params():
                         kinds.add("toolignore")
                         found = True
-                    if any(a.endswith("._exclude_spec") for a in sl.attrs()):
+                    if "exclude" in ak:
                         kinds.add("exclude")
                         found = True
-                    if any(a.endswith("._include_spec") for a in sl.attrs()):
+                    if "include" in ak:
                         kinds.add("include")
                         found = True
                     if not found:
@@ -239,12 +259,84 @@ def _site_filters(ctx: Ctx, fi: FuncInfo, head: Node, site: Node) -> dict[str, b
     return _filters_from_edges(ctx, fi, must_edges(flow.cfg, head, site) or set())
 
 
+def _check_explicit_helper(ctx: Ctx, expl: FuncInfo) -> None:
+    prog = ctx.prog
+    eflow = prog.flow(expl)
+    f = _helper_filters(ctx, expl, True, 0)
+    ctx.ob("R-RESOLVE-V1", f"{expl.qual} :: explicit file passed the size filter", f.get("size") is False,
+           f"explicitly named files bypass exclusions but not the size limit; filters known when the file is accepted: {f}", where(expl, expl.node))
+    n_ex = 0
+    for n in eflow.cfg.nodes:
+        for ex in eflow.node_exprs(n):
+            parts = list(ex.values) if isinstance(ex, ast.BoolOp) and isinstance(ex.op, ast.And) else [ex]
+            if n.kind == "stmt" and isinstance(n.ast, (ast.Return, ast.Assign, ast.Expr)) and getattr(n.ast, "value", None) is not None:
+                v = n.ast.value
+                parts = list(v.values) if isinstance(v, ast.BoolOp) and isinstance(v.op, ast.And) else [v]
+            for i, part in enumerate(parts):
+                kinds = filter_kinds(ctx, expl, part, n)
+                h = _helper_call(ctx, expl, part)
+                if h is not None:
+                    kinds = kinds | set(_helper_filters(ctx, h[0], True, 1)) | set(_helper_filters(ctx, h[0], False, 1))
+                if "exclude" not in kinds:
+                    continue
+                n_ex += 1
+                gs = [(b, lab) for b, lab in all_guards(prog, expl, n) if b.kind == "test"]
+                ok = any(lab == "T" and "force_exclude" in norm(b.ast) for b, lab in gs) or any("force_exclude" in norm(p) for p in parts[:i])
+                ctx.ob("R-RESOLVE-V1", f"{expl.qual} :: exclusion of explicit files only under force_exclude", ok,
+                       "exclusion patterns may filter an explicitly named file only when force_exclude is set", where(expl, n))
+    ctx.require("R-RESOLVE-V1", "exclude tests for explicit files", n_ex, 1)
+
+
+
+def _check_explicit_inline(ctx: Ctx, res: FuncInfo) -> None:
+    """The same two rules when the tests for explicitly named files are written out in resolve(): on the way to the append
+    in the `is_file()` arm the size filter has not matched, and every exclusion test there is guarded by force_exclude."""
+    prog = ctx.prog
+    flow = prog.flow(res)
+
+    doms = flow.cfg.dominators()
+    arms = [s_ for t in flow.cfg.nodes if t.kind == "test" and any(isinstance(c, ast.Call) and isinstance(c.func, ast.Attribute) and c.func.attr == "is_file"
+                                                                  for c in ast.walk(t.ast))
+            for s_, lab in t.succ if lab == "T"]
+
+    def under_is_file(n: Node) -> bool:
+        return any(a is n or a in doms.get(n, set()) for a in arms)
+
+    n_app = n_ex = 0
+    for n, c in flow.all_calls():
+        if isinstance(c.func, ast.Attribute) and c.func.attr == "append" and len(c.args) == 1 and under_is_file(n):
+            heads = [h for h in flow.cfg.nodes if h.kind == "for" and n in flow.loop_body_nodes(h)]
+            if not heads:
+                continue
+            n_app += 1
+            f = _site_filters(ctx, res, max(heads, key=lambda h: h.id), n)
+            ctx.ob("R-RESOLVE-V1", f"{res.qual} :: explicit file passed the size filter", f.get("size") is False,
+                   f"explicitly named files bypass exclusions but not the size limit; filters known when the file is accepted: {f}", where(res, n))
+    for n in flow.cfg.nodes:
+        if n.kind != "test" or not under_is_file(n):
+            continue
+        for part, _truth in _conjuncts(n.ast, "T") + _conjuncts(n.ast, "F"):
+            if "exclude" not in filter_kinds(ctx, res, part, n):
+                continue
+            n_ex += 1
+            fe = [s_ for t in flow.cfg.nodes if t.kind == "test" and "force_exclude" in norm(t.ast) for s_, lab in t.succ if lab == "T"]
+            ok = any(a is n or a in doms.get(n, set()) for a in fe) or "force_exclude" in norm(n.ast)
+            ctx.ob("R-RESOLVE-V1", f"{res.qual} :: exclusion of explicit files only under force_exclude", ok,
+                   "exclusion patterns may filter an explicitly named file only when force_exclude is set", where(res, n))
+            break
+    ctx.require("R-RESOLVE-V1", "append of an explicitly named file in resolve", n_app, 1)
+    ctx.require("R-RESOLVE-V1", "exclude tests for explicit files", n_ex, 1)
+
+
 def check_resolve(ctx: Ctx) -> None:
     repo, prog = ctx.repo, ctx.prog
     walk = _method(ctx, "_walk_directory")
     glob = _method(ctx, "_expand_glob")
-    expl = _method(ctx, "_should_include_explicit")
     res = _method(ctx, "resolve")
+    try:
+        expl = _method(ctx, "_should_include_explicit")
+    except AnalysisError:
+        expl = None  # no separate filter method: the tests are written out in resolve() (checked there, below)
     size = _method(ctx, "_exceeds_max_size")
 
     # ---- V1 filter matrix
@@ -292,30 +384,10 @@ def check_resolve(ctx: Ctx) -> None:
                    f"a file found by glob expansion must pass the {k} filter like a traversed one "
                    f"({'must match' if matched else 'must not match'}); filters on the path to the yield: {f}", where(glob, y))
     # explicit files: size always, exclusions only under force_exclude
-    eflow = prog.flow(expl)
-    f = _helper_filters(ctx, expl, True, 0)
-    ctx.ob("R-RESOLVE-V1", f"{expl.qual} :: explicit file passed the size filter", f.get("size") is False,
-           f"explicitly named files bypass exclusions but not the size limit; filters known when the file is accepted: {f}", where(expl, expl.node))
-    n_ex = 0
-    for n in eflow.cfg.nodes:
-        for ex in eflow.node_exprs(n):
-            parts = list(ex.values) if isinstance(ex, ast.BoolOp) and isinstance(ex.op, ast.And) else [ex]
-            if n.kind == "stmt" and isinstance(n.ast, (ast.Return, ast.Assign, ast.Expr)) and getattr(n.ast, "value", None) is not None:
-                v = n.ast.value
-                parts = list(v.values) if isinstance(v, ast.BoolOp) and isinstance(v.op, ast.And) else [v]
-            for i, part in enumerate(parts):
-                kinds = filter_kinds(ctx, expl, part, n)
-                h = _helper_call(ctx, expl, part)
-                if h is not None:
-                    kinds = kinds | set(_helper_filters(ctx, h[0], True, 1)) | set(_helper_filters(ctx, h[0], False, 1))
-                if "exclude" not in kinds:
-                    continue
-                n_ex += 1
-                gs = [(b, lab) for b, lab in all_guards(prog, expl, n) if b.kind == "test"]
-                ok = any(lab == "T" and "force_exclude" in norm(b.ast) for b, lab in gs) or any("force_exclude" in norm(p) for p in parts[:i])
-                ctx.ob("R-RESOLVE-V1", f"{expl.qual} :: exclusion of explicit files only under force_exclude", ok,
-                       "exclusion patterns may filter an explicitly named file only when force_exclude is set", where(expl, n))
-    ctx.require("R-RESOLVE-V1", "exclude tests for explicit files", n_ex, 1)
+    if expl is None:
+        _check_explicit_inline(ctx, res)
+    else:
+        _check_explicit_helper(ctx, expl)
 
     # ---- V3 pruning is in place
     prunes = []
@@ -471,24 +543,26 @@ def check_gitignore(ctx: Ctx) -> None:
             if isinstance(c.func, ast.Attribute) and c.func.attr in ("match_file", "check_file"):
                 recv = _effective_receiver(c)
                 sl = prog.slice(fi, recv, n)
-                if any("_get_gitignore" in nm or "load_gitignore" in nm for nm in sl.callees()):
+                if "gitignore" in _loader_kinds(ctx, sl.callees()) or "gitignore" in {_attr_kind(ctx, a) for a in sl.attrs()}:
                     sites.append((fi, n, c))
     ctx.require("R-GITIGNORE", "gitignore matcher sites", len(sites), 1)
     for fi, n, c in sites:
         flow = prog.flow(fi)
         tag = "files" if fi is walk else "directories"
+        # (the two sites are named by their role: the names of the private methods that hold them are free to change)
+        site = f"{RESOLVER} [{'directory walk' if fi is walk else 'directory pruning'}]"
         # G1 every use depends on respect_gitignore
         recv = _effective_receiver(c)
         sl = prog.slice(fi, recv, n, control=True)
         g1 = any(a.endswith("respect_gitignore") for a in sl.attrs())
-        ctx.ob("R-GITIGNORE-G1", f"{fi.qual} :: gitignore use ({tag}) depends on respect_gitignore", g1,
+        ctx.ob("R-GITIGNORE-G1", f"{site} :: gitignore use ({tag}) depends on respect_gitignore", g1,
                "with --no-respect-gitignore the .gitignore files must have no influence: every gitignore spec that is consulted "
                "must come from a branch controlled by config.respect_gitignore", where(fi, c))
         # G2 matcher argument: path relative to the directory of that .gitignore
         arg = c.args[0] if c.args else None
         asl = prog.slice(fi, arg, n) if arg is not None else None
         rel = asl is not None and any("relative_to" in nm for nm in asl.callees())
-        ctx.ob("R-GITIGNORE-G2", f"{fi.qual} :: matcher argument ({tag})", rel,
+        ctx.ob("R-GITIGNORE-G2", f"{site} :: matcher argument ({tag})", rel,
                "git matches a pattern against the path relative to the directory of the .gitignore that holds it (anchored `/x`, "
                "nested `a/b` patterns); the string handed to match_file is "
                + (", ".join(sorted(fmt_origin(o) for o in origins(prog, fi, arg, n))) if arg is not None else "missing")
@@ -512,7 +586,7 @@ def check_gitignore(ctx: Ctx) -> None:
                     if lab == "T" and s.kind == "stmt" and isinstance(s.ast, ast.Return) and isinstance(s.ast.value, ast.Constant) \
                             and s.ast.value.value is True:
                         comb_any = True
-        ctx.ob("R-GITIGNORE-G3", f"{fi.qual} :: combination of .gitignore levels ({tag})", not comb_any,
+        ctx.ob("R-GITIGNORE-G3", f"{site} :: combination of .gitignore levels ({tag})", not comb_any,
                "the per-directory specs are combined as a plain disjunction (first match wins): a negation `!keep.md` in a deeper "
                ".gitignore can never re-include what a shallower file ignores, unlike git", where(fi, c))
     # G4 the gitignore factory
